@@ -136,9 +136,19 @@ func c14PermEnds(n int) []int {
 // c14NewPayload builds a well-formed payload of n frames: cidBase separates the CIDs of
 // different payloads, lens(k) is the concrete data length of the frame at tree position k.
 func c14NewPayload(n int, cidBase int, lens func(k int) int, perm func(n int) []int) *c14Payload {
+	parent := c14Tree(n)
+	return c14BuildPayload(n, parent, perm(n), cidBase, lens)
+}
+
+// c14RevLinks: the next lists name the children in reverse order.
+var c14RevLinks bool
+
+// c14BuildPayload: parent[k] < k is the frame whose next list names frame k; rank is the
+// permutation assigning index positions to tree positions.
+func c14BuildPayload(n int, parent []int, rank []int, cidBase int, lens func(k int) int) *c14Payload {
 	p := &c14Payload{n: n}
-	p.parent = c14Tree(n)
-	p.rank = perm(n)
+	p.parent = parent
+	p.rank = rank
 	// index values: any strictly increasing chain v[0] < v[1] < ... ; idx[k] = v[rank[k]]
 	// (concrete mode: -7, 3, 13, ... so that negative values and gaps still occur)
 	v := make([]int, n)
@@ -187,7 +197,11 @@ func c14NewPayload(n int, cidBase int, lens func(k int) int, perm func(n int) []
 		var next ipldbindcode.List__Link
 		for c := k + 1; c < n; c++ {
 			if p.parent[c] == k {
-				next = append(next, cidlink.Link{Cid: p.cids[c]})
+				if c14RevLinks {
+					next = append(ipldbindcode.List__Link{cidlink.Link{Cid: p.cids[c]}}, next...)
+				} else {
+					next = append(next, cidlink.Link{Cid: p.cids[c]})
+				}
 			}
 		}
 		if len(next) > 0 {
